@@ -40,6 +40,9 @@ def cases(tier, seed):
     for c in c01.cases(tier, seed):
         d = c["desc"]
         nf = len(d["fields"])
+        if c.get("wide120"):
+            out.append({"desc": d, "maxlen": 1, "w": 30, "wide": True})
+            continue
         if len(set(d["fields"])) != nf:
             if c.get("devlevel") is not None:
                 continue
